@@ -456,6 +456,20 @@ func c12d(c *Ctx) {
 				nUpd++
 			}
 		})
+		// ... for every well-formed option: no successful return of Set is reached without the
+		// entry having been stored (`-s GAME=` sets GAME to the empty value; it selects `_`)
+		{
+			isUpd := func(in ssa.Instruction) bool { _, ok := in.(*ssa.MapUpdate); return ok }
+			w, skip := existsPath(pathQuery{from: entry(fn), avoid: isUpd, edgeOK: notErrorEdge, target: func(in ssa.Instruction) bool {
+				r, ok := in.(*ssa.Return)
+				return ok && isSuccessReturn(r)
+			}})
+			why := ""
+			if skip {
+				why = "mapOption.Set can return successfully (" + c.nearPos(w) + ") without having stored the option: a switch given on the command line would be unknown to the parser"
+			}
+			c.Check(!skip, "mapOption.Set/every-option-stored", c.W.FuncPos(fn), "every accepted -s option is stored", why)
+		}
 		c.Check(nUpd == 1, "mapOption.Set/one-entry", c.W.FuncPos(fn), "Set stores one entry per -s option", fmt.Sprintf("mapOption.Set updates the map %d times: besides NAME=VALUE as written it stores something else (another spelling of the name?), so one -s option can override another switch", nUpd))
 	}
 	// the switch values that reach the parser are the ones given on the command line: nothing in
